@@ -1185,7 +1185,7 @@ def run(ctx: lib.Ctx) -> None:
         sessions.append((cells, ['corpus']))
     for cells in HAND:
         sessions.append((cells, ['hand']))
-    nsess = ctx.n(60, 800)
+    nsess = ctx.n(45, 700)
     maxlen = ctx.n(8, 14)
     for _ in range(nsess):
         n = ctx.rng.randrange(3, maxlen + 1)
@@ -1194,13 +1194,13 @@ def run(ctx: lib.Ctx) -> None:
 
     # failures at every instruction position of one cell (hand-written sessions always, generated ones as the tier allows)
     swept = []
-    for cells, kinds in sessions[:len(HAND) + ctx.corpus_cases + ctx.n(5, 80)]:
+    for cells, kinds in sessions[:len(HAND) + ctx.corpus_cases + ctx.n(4, 70)]:
         swept += position_sweep(ctx.rng, cells, ctx.n(5, 10))
     sessions += swept
     ctx.extra['position_sweep_sessions'] = len(swept)
 
     # modelled sessions with context effects reached through stored lambdas (the shape of seed C22-7)
-    for _ in range(ctx.n(25, 300)):
+    for _ in range(ctx.n(15, 250)):
         sessions.append((indirect_ast_session(ctx.rng), ['indirect']))
 
     cases, meta, meta_obs = [], [], []
